@@ -176,7 +176,12 @@ pub fn run_worker(
       if a.failing.len() < 64 {
         a.failing.push((i, unlisted, r.case, r.log_hash));
       } else {
-        *a.counters.entry("violating_runs_not_kept".into()).or_insert(0) += 1;
+        // Enough evidence: stop this worker. (Each worker visits its indices
+        // in increasing order, so the lowest failing index overall is among
+        // the kept ones whatever the worker count.) This also bounds the cost
+        // of a change that makes every run fail slowly.
+        *a.counters.entry("worker_stopped_after_64_violating_runs".into()).or_insert(0) += 1;
+        break;
       }
     } else if i < 3 {
       a.samples.push((i, r.case));
